@@ -6,7 +6,8 @@ import os
 HERE = os.path.dirname(os.path.dirname(os.path.abspath(__file__)))
 SYMX = 'symbolic execution of the Python source (own executor symx over z3): exhaustive path exploration within the stated bounds, every counterexample model replayed on the unmodified tree'
 NOTE = ('floats modelled as reals inside the double range; shape / scenario catalogue, boxes and stubs as listed under "assumptions" '
-        'and "coverage" of the evidence file; message texts are not evaluated for symbolic numbers; thread schedules are not explored')
+        'and "coverage" of the evidence file; message texts are not evaluated for symbolic numbers; thread schedules are explored for '
+        'C05, C07, C08, C11, C16 only (symbolic schedule selectors, engine/cosched.py), within the stated pre-emption / delay bounds')
 
 CHECKS = {
     'C01': ('model_checking', 'bounded symbolic execution of the real validate/import_value/__call__ code of all ten SECoP datatypes: '
@@ -120,7 +121,10 @@ def main():
             'engine': 'symx',
             'level_claimed': {'category': level, 'text': text, 'design_ref': 'DESIGN.md ' + ref},
             'level_note': PER_NOTE.get(pid, '') + '. ' + NOTE,
-            'technique': SYMX,
+            'technique': SYMX + ('; thread interleavings as symbolic schedule selectors of a cooperative scheduler over real threads '
+                                  '(engine/cosched.py), pre-emption / delay bounded' if pid in ('C05', 'C07', 'C08', 'C11', 'C16') else '')
+                         + ('; IEEE-754 lemmas in QF_FP for the scaled integer kernels (engine/fp.py)' if pid in ('C02', 'C03') else '')
+                         + ('; CrossHair conditions for symbolic strings (engine/xh.py)' if pid in ('C01', 'C04', 'C07', 'C08', 'C12', 'C20') else ''),
         })
     na = []
     for i in range(1, 21):
